@@ -256,6 +256,57 @@ let cmd_dbhist (t : toks) : string =
   done;
   "dbhist " ^ String.concat " | " (List.rev !segs) ^ " ## " ^ String.concat " | " (List.rev !ssegs)
 
+
+(* ---------- crash engine (C13): candidates after a kill inside the last history op ---------- *)
+let cmd_crashmodel (t : toks) : string =
+  let names = p_list p_b t in
+  let _k = p_n t in
+  let h = { st = db_init names; ast = a_init names; offsets = []; names } in
+  (* split token positions of the history ops *)
+  let starts = ref [] in
+  let i0 = t.i in
+  let j = ref i0 in
+  while !j < Array.length t.a && t.a.(!j) <> ";;" do
+    if t.a.(!j) = ";" then starts := !j :: !starts;
+    incr j
+  done;
+  let cont_start = !j in
+  let starts = List.rev !starts in
+  let nh = List.length starts in
+  (* run all but the last history op *)
+  List.iteri (fun n st -> if n < nh - 1 then begin t.i <- st + 1; ignore (db_op h t) end) starts;
+  let cands : db list =
+    if nh = 0 then [db_init names]
+    else begin
+      let st = List.nth starts (nh - 1) in
+      t.i <- st + 1;
+      let op = next t in
+      (match op with
+       | "store" -> let e = p_event t in crash_states_store h.st e
+       | "remove" -> let id = p_b t in crash_states_remove h.st id
+       | "vanish" -> let pk = p_b t in crash_states_vanish h.st pk
+       | "xput" -> let name = p_b t in let k = p_b t in let v = p_b t in
+           if List.mem name h.names then [h.st; db_extra_put h.st name k v] else [h.st]
+       | _ -> [h.st])
+    end in
+  (* dedupe *)
+  let cands = List.fold_left (fun acc c -> if List.mem c acc then acc else acc @ [c]) [] cands in
+  let outs = List.map (fun c ->
+    let hc = { st = c; ast = a_init names; offsets = []; names } in
+    let segs = ref [] in
+    t.i <- cont_start;
+    if t.i < Array.length t.a then begin
+      t.a.(t.i) <- ";";
+      while t.i < Array.length t.a do
+        let sep = next t in
+        if sep <> ";" then failwith ("expected ; got " ^ sep);
+        segs := db_op hc t :: !segs
+      done;
+      t.a.(cont_start) <- ";;"
+    end;
+    String.concat " | " (List.rev !segs)) cands in
+  Printf.sprintf "crashmodel cands=%d ## %s" (List.length cands) (String.concat " ## " outs)
+
 (* ---------- commands ---------- *)
 let run_line (line : string) : string =
   let a = Array.of_list (List.filter (fun s -> s <> "") (String.split_on_char ' ' line)) in
@@ -287,6 +338,7 @@ let run_line (line : string) : string =
       let out = List.init outlen (fun _ -> fill) in
       Printf.sprintf "ctor_filter r=%s fits=%s" (s_res hex_of_bytes (filter_from_parts f out)) (s_bool (wf_afilterb f && fits_filterb f))
   | "dbhist" -> cmd_dbhist t
+  | "crash" -> cmd_crashmodel t
   | "evjson" ->
       let inp = p_b t in let outlen = p_int t in let fill = p_n t in
       let out = List.init outlen (fun _ -> fill) in
